@@ -204,6 +204,12 @@ func c10Sticky(p *chk.Prog, r *chk.Report) {
 	var readyMap types.Object
 	trues := g.Find(f.IsAssignPat("R[A]", "true"))
 	falses := g.Find(f.IsAssignPat("R[A]", "false"))
+	if len(trues) == 0 && len(falses) == 0 {
+		// the two conditional writes merged into one assignment of a boolean expression
+		if c10StickyValueForm(x, f, g, filter) {
+			return
+		}
+	}
 	x.Check("hasHealthyEndpoint:true-site", f.Pos(), len(trues) == 1, "", "expected one `ready[addr] = true`")
 	x.Check("hasHealthyEndpoint:false-site", f.Pos(), len(falses) >= 1, "", "no `ready[addr] = false`: an unready entry cannot veto the address")
 	if len(trues) != 1 || len(falses) < 1 {
@@ -340,4 +346,77 @@ func c10SkipPolarity(p *chk.Prog) (skip bool, known bool) {
 		}
 	}
 	return true, false
+}
+
+// c10StickyValueForm decides STICKY-FALSE when the per-address update is one assignment `ready[addr] = E`: E must be
+// exactly `canServe && (no earlier opinion || the earlier opinion was true)` with the earlier opinion read from
+// ready[addr] (comma-ok form) in the same iteration. It reports false when the function does not have that shape.
+func c10StickyValueForm(x *chk.R, f *chk.Fn, g *chk.Graph, filter func(ast.Expr) bool) bool {
+	var stores []chk.Site
+	for _, s := range g.Find(f.IsAssignPat("R[A]", "E")) {
+		if _, isMap := f.Info().TypeOf(s.Node.(*ast.AssignStmt).Lhs[0].(*ast.IndexExpr).X).Underlying().(*types.Map); isMap {
+			stores = append(stores, s)
+		}
+	}
+	if len(stores) != 1 {
+		return false
+	}
+	t := stores[0]
+	as := t.Node.(*ast.AssignStmt)
+	ix := as.Lhs[0].(*ast.IndexExpr)
+	readyMap := f.ObjOf(ix.X)
+	addrLoop, _ := f.LoopOf(t.Node).(*ast.RangeStmt)
+	if addrLoop == nil || readyMap == nil {
+		return false
+	}
+	epLoop, _ := f.LoopOf(addrLoop).(*ast.RangeStmt)
+	if epLoop == nil || f.MatchNew("EP.Addresses", addrLoop.X) == nil || !rangeVal(f, epLoop)(f.MatchNew("EP.Addresses", addrLoop.X)["EP"]) {
+		return false
+	}
+	x.OK("hasHealthyEndpoint:true-site", t.Pos(), "one assignment of the combined opinion")
+	x.OK("hasHealthyEndpoint:false-site", t.Pos(), "one assignment of the combined opinion")
+	ep := rangeVal(f, epLoop)
+	addr := rangeVal(f, addrLoop)
+	x.Check("hasHealthyEndpoint:true:keyed-by-address", t.Pos(), addr(ix.Index), "", "ready is not keyed by the entry's address")
+	can := g.GPat(true, "epslices.EndpointCanServe(EP.Conditions)", chk.H("EP", ep))
+	lookup := func(idx int) func(ast.Expr) bool {
+		return definedByIdx(g, f, "R[A]", idx, chk.H("R", f.IsObj(readyMap)), chk.H("A", addr))
+	}
+	noOpinion := chk.GBool(false, lookup(1))
+	wasTrue := chk.GBool(true, lookup(0))
+	spec := chk.GAnd(can, chk.GOr(noOpinion, wasTrue))
+	okT := g.DominatedAssuming(t, as.Rhs[0], true, spec)
+	okF := g.DominatedAssuming(t, as.Rhs[0], false, chk.GNot(spec))
+	x.Check("hasHealthyEndpoint:true:no-earlier-opinion", t.Pos(), okT, "", "a ready entry can overwrite an earlier `false` for the same address")
+	x.Check("hasHealthyEndpoint:true:can-serve", t.Pos(), okT, "", "an address can be marked ready by an entry that cannot serve")
+	x.Check("hasHealthyEndpoint:false-is-sticky", addrLoop.Pos(), okF && !loopSkipsWithout(g, addrLoop, func(n ast.Node) bool { return n == t.Top }, chk.NoGuard) && !loopHasBreak(g, addrLoop), "", "an entry that cannot serve does not always force its address to false (a later or earlier ready entry wins)")
+	x.Check("hasHealthyEndpoint:false:cannot-serve", t.Pos(), okF, "", "an address is vetoed by an entry that can serve")
+	// the earlier opinion is read in the same iteration, before the store
+	okRead := false
+	for _, s := range g.Find(func(n ast.Node) bool {
+		a2, ok := n.(*ast.AssignStmt)
+		return ok && len(a2.Lhs) == 2 && len(a2.Rhs) == 1 && f.MatchWith("R[A]", a2.Rhs[0], chk.H("R", f.IsObj(readyMap)), chk.H("A", addr)) != nil
+	}) {
+		okRead = chk.InBody(addrLoop, s.Node) && s.Pos() < t.Pos()
+	}
+	x.Check("hasHealthyEndpoint:opinion-read-this-iteration", t.Pos(), okRead, "", "the earlier opinion combined with the entry's is not the one recorded for this address")
+	okFl := c10FilterSkips(f, g, filter, ep, epLoop, addrLoop, true) || c10FilterSkips(f, g, filter, ep, epLoop, addrLoop, false)
+	x.Check("hasHealthyEndpoint:filter-applied", epLoop.Pos(), okFl, "", "entries rejected by the node filter still contribute addresses")
+	nt := 0
+	for _, rt := range g.Returns() {
+		res := retResults(rt)
+		if len(res) != 1 {
+			continue
+		}
+		if f.IsConstBool(res[0], true) {
+			nt++
+			rs, _ := f.LoopOf(rt.Node).(*ast.RangeStmt)
+			ok := rs != nil && f.Denotes(rs.X, readyMap) && g.Dominated(rt, chk.GBool(true, rangeVal(f, rs)))
+			x.Check("hasHealthyEndpoint:true-result-needs-ready-address", rt.Pos(), ok, "", "true is returned without an address that is still marked ready")
+		} else if !f.IsConstBool(res[0], false) {
+			x.Fail("hasHealthyEndpoint:return-shape", rt.Pos(), "a return that is not a boolean constant")
+		}
+	}
+	x.Check("hasHealthyEndpoint:has-true-result", f.Pos(), nt == 1, "", "unexpected shape")
+	return true
 }
